@@ -41,10 +41,10 @@ theorem status_codes_three_digits : ∀ row ∈ Generated.statusTable, 100 ≤ r
 /-- The spelling a header name is serialised with lower-cases back to the key it was parsed to,
 so serialising a header and parsing it again yields the same name. -/
 theorem header_display_roundtrip :
-    ∀ row ∈ Generated.headerTable, Bytes.asciiLower row.2.1 = row.1 := by decide
+    ∀ row ∈ Generated.headerTable, Bytes.asciiLower row.2.1 = row.1 := by decide +kernel
 
 /-- Known header names are pairwise distinct. -/
-theorem header_keys_distinct : (Generated.headerTable.map (·.1)).Nodup := by decide
+theorem header_keys_distinct : (Generated.headerTable.map (·.1)).Nodup := by decide +kernel
 
 /-! ## Read segmentation -/
 
